@@ -127,8 +127,8 @@ var props = map[string]*propCfg{
 		ID: "C02", Level: "model_checking", Exhaustive: true,
 		Rule:        "TLC enumerates (a) one aliased expression per case from the grammar: 10 atoms (columns a, b, nested n.p, a missing key, constants 0 1 2 3 -1 1/2), every binary operator (+ - * / DIV % & | ^ << >>) and unary operator (- ~ !) over all atom pairs, depth-2 trees over a core set, CASE WHEN with 1-2 arms with/without ELSE, on every 1-row (thorough: also 2-row) table drawn from 5 rows incl. a NULL operand, keeping only inputs whose meaning the statement fixes (no division by zero etc.); (b) every select list of 1-3 items from 9 items (star, bare / aliased columns, nested path, missing key, expressions, a literal, clashing names) x every table of <= MaxRows rows x {no WHERE, WHERE}. Each case is replayed and the exact row sequence (key sets and values) compared. Leg T: seeded random tables (0-6 rows) x select lists of 1-4 items with trees to depth 5. Non-trivial: at least one output row and not a lone bare column / literal; distinct = distinct (table, query) pairs. Leg T also validates the repository's own test suite: run with the recorder behind the verif tag, each New / Exec call of the tests whose query text translates into the specification's AST (and each recorded input the tests never execute, executed by the harness) is checked stage by stage against EngineTrace. A further trace leg projects 1100-1300 distinct columns in one select list (any number of items: more distinct column selectors than a bounded cache holds).",
 		Assumptions: append([]string{"numbers are compared exactly when the expected value is dyadic, otherwise within 1e-12 relative (IEEE rounding of the engine's float64 arithmetic against the specification's exact rationals)"}, baseAssumptions...),
-		Quick:       []legCfg{mc("proj", "MC_C02", "C02_quick.cfg", 10*time.Minute), tr("proj", "EngineTrace", 300, 4), mix(200, 3), repo("all"), wide(2, 1)},
-		Thorough:    []legCfg{mc("proj", "MC_C02", "C02_thorough.cfg", 40*time.Minute), tr("proj", "EngineTrace", 2000, 12), mix(1500, 12), repo("all"), wide(3, 3)},
+		Quick:       []legCfg{mc("proj", "MC_C02", "C02_quick.cfg", 10*time.Minute), tr("proj", "EngineTrace", 300, 4), mix(200, 3), repo("all"), wide(2, 1), {Kind: "exec", Name: "bignum", Mode: "bignum", Timeout: 2 * time.Minute}},
+		Thorough:    []legCfg{mc("proj", "MC_C02", "C02_thorough.cfg", 40*time.Minute), tr("proj", "EngineTrace", 2000, 12), mix(1500, 12), repo("all"), wide(3, 3), {Kind: "exec", Name: "bignum", Mode: "bignum", Timeout: 2 * time.Minute}},
 	},
 	"C03": {
 		ID: "C03", Level: "model_checking", Exhaustive: true,
@@ -224,8 +224,8 @@ var props = map[string]*propCfg{
 		ID: "C04", Level: "model_checking", Exhaustive: true,
 		Rule:        "TLC enumerates every pair of tables of 0..MaxRows rows (quick: <= 1 row per side with all 50 ON expressions and <= 2 rows with a core of 7; thorough: <= 2 rows with all 50 and <= 3 rows with the core) (two join columns per side - a number and a string - whose names sort differently on the two sides, duplicate keys, with Wide strings containing the key-text separator, with Big the numeric keys 2^24 and 2^24 + 1; Many: two pairs of fixed long tables with 37 / 40 against 35 / 33 partly overlapping keys) x 50 ON expressions (every comparison operator in both orientations on the numeric pair, =, !=, < on the string pair, AND / OR of two comparisons in either order and orientation, one column compared twice) x {INNER, LEFT, RIGHT}, and checks that the operational models of the hash join and of the nested loop (Joins.tla) are bag-equal to the textbook join for every strategy Join.Exec can choose. Each case is executed under every spelling of the strategy (JOIN, INNER JOIN, HASH_JOIN, STRAIGHT_JOIN, PARALLEL JOIN, PARALLEL HASH_JOIN, PARALLEL STRAIGHT_JOIN; LEFT / RIGHT x {JOIN, HASH_JOIN, PARALLEL JOIN, PARALLEL HASH_JOIN}; PARALLEL ones three times; every run once more with the left side's numeric keys held as Go ints against float64 on the right - and every other right row an int as well, so that one side holds the same number under two Go types) and the result compared as a multiset with the exported textbook result. Non-trivial: non-empty join result; distinct = distinct (tables, ON, type).",
 		Assumptions: baseAssumptions,
-		Quick:       []legCfg{mc("allons", "MC_C04", "C04_quick.cfg", 15*time.Minute), mc("rows2", "MC_C04", "C04_quick2.cfg", 15*time.Minute), mc("wide", "MC_C04", "C04_wide.cfg", 15*time.Minute), mc("big2", "MC_C04", "C04_big2.cfg", 15*time.Minute), mc("many", "MC_C04", "C04_many.cfg", 15*time.Minute), tr("joins", "EngineTrace", 250, 4)},
-		Thorough:    []legCfg{mc("joins", "MC_C04", "C04_full2.cfg", 30*time.Minute), mc("wide", "MC_C04", "C04_wide.cfg", 15*time.Minute), mc("big", "MC_C04", "C04_big.cfg", 15*time.Minute), mc("big2", "MC_C04", "C04_big2.cfg", 15*time.Minute), mc("many", "MC_C04", "C04_many.cfg", 15*time.Minute), mc("rows3", "MC_C04", "C04_thorough.cfg", 90*time.Minute), tr("joins", "EngineTrace", 1500, 12)},
+		Quick:       []legCfg{mc("allons", "MC_C04", "C04_quick.cfg", 15*time.Minute), mc("rows2", "MC_C04", "C04_quick2.cfg", 15*time.Minute), mc("wide", "MC_C04", "C04_wide.cfg", 15*time.Minute), mc("big2", "MC_C04", "C04_big2.cfg", 15*time.Minute), mc("many", "MC_C04", "C04_many.cfg", 15*time.Minute), tr("joins", "EngineTrace", 250, 4), {Kind: "exec", Name: "volume", Mode: "volume", Timeout: 20 * time.Minute}},
+		Thorough:    []legCfg{mc("joins", "MC_C04", "C04_full2.cfg", 30*time.Minute), mc("wide", "MC_C04", "C04_wide.cfg", 15*time.Minute), mc("big", "MC_C04", "C04_big.cfg", 15*time.Minute), mc("big2", "MC_C04", "C04_big2.cfg", 15*time.Minute), mc("many", "MC_C04", "C04_many.cfg", 15*time.Minute), mc("rows3", "MC_C04", "C04_thorough.cfg", 90*time.Minute), tr("joins", "EngineTrace", 1500, 12), {Kind: "exec", Name: "volume", Mode: "volume", Timeout: 20 * time.Minute}},
 	},
 	"C14": {
 		ID: "C14", Level: "model_checking", Exhaustive: true,
